@@ -15,6 +15,17 @@
 //!           (a prune that plans now sees these packs as unreferenced and — unless instant-delete — only marks them)
 //!     e     that backup finishes: its index file(s) and snapshot arrive; from now on the packs are indexed and in use, and no
 //!           later prune may delete them, however long ago they were marked (an `h` without `e` is an interrupted backup)
+//!     q<prune spec>  (Q<prune spec>: every k also for long runs)  FAULT SWEEP of that prune, on copies of the store: for every (sampled) k the k-th storage operation of the
+//!           run (write of a repacked tree / data pack — in particular the LAST data pack, which is only written by
+//!           `finalize` —, the index write, an index / pack removal) fails once (`fail_only`): prune must return Err, afterwards
+//!           check(read_data) is clean and every snapshot reads back, and a fault-free retry succeeds and is clean again; then
+//!           the prune runs fault-free on the history's own store (like `p`)
+//!     z<prune spec>/<i>  that prune, interrupted: the removal of the old index file(s) listing the root tree of live snapshot i
+//!           fails (must be reported as Err) while the removals of the other old index files — they run in parallel — all
+//!           take effect; the history goes on from that state (rebuilt index + surviving old index file = duplicate entries)
+//!     o<m>  from now on prune's index files are listed and served smallest first (1) / largest first (2) / uncontrolled (0)
+//!     g<c>  (first step only) the repository uses the fixed-size chunker with c-byte chunks
+//!     l<k>,<n>  backup of source version k plus a file of n distinct 8-byte records (index files with >= MIN_INDEX_LEN blobs)
 //! After `u` / `a` the repository is only *recoverable* (blobs may live in packs marked for deletion) until the next prune.
 //! The harness keeps its own record of WHEN each pack was marked (the injected time of the marking prune): a
 //! non-instant prune may remove a pack only if that record is at least keep-delete old.
@@ -23,7 +34,7 @@ use std::collections::{BTreeMap, BTreeSet};
 use bytes::Bytes;
 use bytesize::ByteSize;
 use rustic_core::jiff::{Timestamp, tz::TimeZone};
-use rustic_core::repofile::{BlobType, FileType, IndexFile, SnapshotFile};
+use rustic_core::repofile::{BlobType, Chunker, FileType, IndexFile, SnapshotFile};
 use rustic_core::verif::prune as hook;
 use rustic_core::{BackupOptions, ConfigOptions, Id};
 
@@ -55,6 +66,21 @@ pub fn source(seed: u64, k: u64, extra: Option<Vec<u8>>) -> MemSource {
     if let Some(e) = extra {
         v.push(SrcEntry::file(&[b"d1", b"zz-collide"], &e));
     }
+    MemSource::new(v)
+}
+
+/// `source(seed, k, None)` plus one file of `n` distinct 8-byte records (distinct per version as well)
+pub fn large_source(seed: u64, k: u64, n: u64) -> MemSource {
+    let mut v = source(seed, k, None).entries;
+    let base = seed.wrapping_mul(0x9e37_79b9_7f4a_7c15) ^ (k << 40);
+    let mut data = Vec::with_capacity(n as usize * 8);
+    for i in 0..n {
+        data.extend_from_slice(&base.wrapping_add(i).to_le_bytes());
+    }
+    let mut e = SrcEntry::file(&[b"d1", b"large"], &data);
+    e.mtime_s += 10 * (k as i64 + 1);
+    e.ctime_s = e.mtime_s;
+    v.push(e);
     MemSource::new(v)
 }
 
@@ -137,7 +163,44 @@ fn all_index(h: &RepoHandle) -> Result<Vec<(Id, IndexFile)>, String> {
     Ok(decode_index_files(h, &store, &ids)?.into_iter().map(|(i, f)| (*i, f)).collect())
 }
 
-fn prune_step(h: &RepoHandle, spec: &str, step: usize, marked_at: &mut BTreeMap<Id, i64>) -> Result<(), String> {
+/// fault injected into one prune run
+#[derive(Clone, Debug)]
+enum Fault {
+    None,
+    /// the k-th storage operation (write or removal) of the run fails once
+    Kth(usize),
+    /// the removal of these index files fails
+    RemoveIndex(Vec<Id>),
+}
+
+/// what one (possibly faulty) prune run did
+struct Ran {
+    /// `prune` returned Ok
+    ok: bool,
+    /// the storage operation that was made to fail, if the run reached it
+    failed: Option<repo::LogOp>,
+    /// number of storage operations of the run
+    n: usize,
+    /// position of the last pack write that is not cacheable (= data pack) / of the first index write
+    last_data_pack_write: Option<usize>,
+    /// the index files the plan rebuilds (= removes after writing the new index)
+    rebuild: Vec<Id>,
+}
+
+fn op_kind(o: &repo::LogOp) -> &'static str {
+    match (o.write, o.tpe, o.cacheable) {
+        (true, FileType::Pack, false) => "data-pack-write",
+        (true, FileType::Pack, true) => "tree-pack-write",
+        (true, FileType::Index, _) => "index-write",
+        (false, FileType::Index, _) => "index-remove",
+        (false, FileType::Pack, _) => "pack-remove",
+        _ => "other-op",
+    }
+}
+
+/// One prune run (plan with injected time + execution) with the oracles on what it did to the store; with a fault the run may
+/// fail — everything it did until then is held against the same oracles.
+fn prune_run(h: &RepoHandle, spec: &str, step: usize, marked_at: &mut BTreeMap<Id, i64>, fault: &Fault, order: u8) -> Result<Ran, String> {
     // spec = keepDelete,keepPack,FLAGS,maxRepack,maxUnused,dt
     let v: Vec<&str> = spec.split(',').collect();
     if v.len() != 6 {
@@ -148,9 +211,20 @@ fn prune_step(h: &RepoHandle, spec: &str, step: usize, marked_at: &mut BTreeMap<
     let kd: i64 = v[0].parse().map_err(|_| "bad-op".to_string())?;
     let pre_index = all_index(h).map_err(|_| fail("index-undecodable", step))?;
     let repo = h.open().map_err(|_| fail("open", step))?;
+    if order != 0 {
+        // the order in which the index files arrive at the planner: by size
+        let mut ids: Vec<(usize, Id)> = h.be.ids(FileType::Index).into_iter().map(|id| (h.be.get(FileType::Index, &id).map_or(0, |b| b.len()), id)).collect();
+        ids.sort();
+        if order == 2 {
+            ids.reverse();
+        }
+        h.be.set_serve_order(FileType::Index, &ids.iter().map(|x| x.1).collect::<Vec<_>>(), 100);
+    }
     let now = Timestamp::now().as_second() + dt + 1;
     let zoned = Timestamp::from_second(now).unwrap().to_zoned(TimeZone::UTC);
-    let rep = hook::plan_at(&repo, &po.opts, zoned).map_err(|e| fail(&format!("plan-{}", errkind(&e)), step))?;
+    let rep = hook::plan_at(&repo, &po.opts, zoned);
+    h.be.set_serve_order(FileType::Index, &[], 0);
+    let rep = rep.map_err(|e| fail(&format!("plan-{}", errkind(&e)), step))?;
     if dt == 0 {
         // the unhooked planner must agree with the hooked one (same state, same options, clock within a second)
         let real = repo.prune_plan(&po.opts).map_err(|e| fail(&format!("plan-{}", errkind(&e)), step))?;
@@ -173,10 +247,35 @@ fn prune_step(h: &RepoHandle, spec: &str, step: usize, marked_at: &mut BTreeMap<
         }
     }
     // the plan with the injected time is the one that is executed: every time the run writes is `now`
+    let rebuild: Vec<Id> = rep.rebuild.iter().map(|i| **i).collect();
     let plan = rep.plan;
     h.be.clear_log();
-    repo.prune(&po.opts, plan).map_err(|e| fail(&format!("prune-{}", errkind(&e)), step))?;
-    let log = h.be.log();
+    match fault {
+        Fault::None => {}
+        Fault::Kth(k) => h.be.set_fail_only(Some(*k)),
+        Fault::RemoveIndex(ids) => ids.iter().for_each(|id| h.be.set_fail_removes_of(FileType::Index, *id, true)),
+    }
+    let res = repo.prune(&po.opts, plan);
+    h.be.set_fail_only(None);
+    if let Fault::RemoveIndex(ids) = fault {
+        ids.iter().for_each(|id| h.be.set_fail_removes_of(FileType::Index, *id, false));
+    }
+    let full_log = h.be.log();
+    let failed = full_log.iter().find(|o| !o.applied).cloned();
+    if let Err(e) = &res {
+        if failed.is_none() {
+            return Err(fail(&format!("prune-{}", errkind(e)), step));
+        }
+    }
+    let ran = Ran {
+        ok: res.is_ok(),
+        failed,
+        n: full_log.len(),
+        last_data_pack_write: full_log.iter().rposition(|o| o.write && o.tpe == FileType::Pack && !o.cacheable),
+        rebuild,
+    };
+    // the oracles below look at what was really done to the store
+    let log: Vec<repo::LogOp> = full_log.into_iter().filter(|o| o.applied).collect();
     // a non-instant prune removes a pack only if it was marked at least keep-delete ago — by the harness' own record
     // of the time of the prune that marked it (and the time stored in the index must say the same)
     let mut unmarked: BTreeSet<Id> = BTreeSet::new();
@@ -226,17 +325,92 @@ fn prune_step(h: &RepoHandle, spec: &str, step: usize, marked_at: &mut BTreeMap<
             return Err(fail("order-pack-removed-early", step));
         }
     }
+    Ok(ran)
+}
+
+/// which operations of a prune run with `n` storage operations get a fault: all of them for short runs, else every write
+/// position class (first operations, around the last data pack write, the index write that follows it) and a sample
+fn fault_ks(n: usize, last_data: Option<usize>, seed: u64, thorough: bool) -> Vec<usize> {
+    if n <= 12 || (thorough && n <= 40) {
+        return (0..n).collect();
+    }
+    let mut v: BTreeSet<usize> = [0, 1, n / 2, n - 2, n - 1].into_iter().collect();
+    if let Some(d) = last_data {
+        v.extend([d.saturating_sub(1), d, d + 1, d + 2].into_iter().filter(|k| *k < n));
+    }
+    let mut r = Rng::new(seed ^ 0xc02);
+    for _ in 0..3 {
+        _ = v.insert(r.below(n as u64) as usize);
+    }
+    v.into_iter().collect()
+}
+
+fn copy_of(h: &RepoHandle) -> RepoHandle {
+    RepoHandle { be: MemBackend::from_store(h.be.store()), hot: None, key: h.key.clone() }
+}
+
+fn retag(e: String, tag: &str) -> String {
+    e.replacen("oracle-fail:", &format!("oracle-fail:{tag}:"), 1)
+}
+
+/// `q`: the fault sweep of one prune (see the module comment); everything happens on copies of the store
+#[allow(clippy::too_many_arguments)]
+fn fault_sweep(h: &RepoHandle, spec: &str, step: usize, marked_at: &BTreeMap<Id, i64>, live: &[Live], pending: bool, seed: u64, order: u8, thorough: bool) -> Result<(), String> {
+    let hc = copy_of(h);
+    let mut m = marked_at.clone();
+    let full = prune_run(&hc, spec, step, &mut m, &Fault::None, order)?;
+    for k in fault_ks(full.n, full.last_data_pack_write, seed ^ step as u64, thorough) {
+        let hc = copy_of(h);
+        let mut m = marked_at.clone();
+        let ran = prune_run(&hc, spec, step, &mut m, &Fault::Kth(k), order).map_err(|e| retag(e, "faulty-prune"))?;
+        let Some(op) = &ran.failed else { continue };
+        let what = op_kind(op);
+        // A failed run can leave worker threads behind that still write for a moment (when one repacker fails the other one is
+        // dropped, not joined): everything below works on a copy of the store as it is now, so that such a late write (always an
+        // unreferenced pack) cannot land in the middle of the retry.
+        let hc = copy_of(&hc);
+        if std::env::var("VH_DEBUG").is_ok() {
+            eprintln!("step {step}: fault at {k}/{} ({what}) -> prune {}", full.n, if ran.ok { "Ok" } else { "Err" });
+        }
+        // the state a failed prune leaves behind: nothing a snapshot needs is lost, check is clean
+        let state = if pending { Ok(()) } else { verify(&hc, live, step) };
+        if ran.ok {
+            // the failure was swallowed
+            let lost = if state.is_err() { "-and-data-lost" } else { "" };
+            return Err(fail(&format!("prune-ok-despite-failed-{what}{lost}"), step));
+        }
+        state.map_err(|e| retag(e, &format!("after-failed-{what}")))?;
+        // the retry without fault works and leaves a clean repository
+        let again = prune_run(&hc, spec, step, &mut m, &Fault::None, order).map_err(|e| retag(e, &format!("retry-after-failed-{what}")))?;
+        debug_assert!(again.ok);
+        verify(&hc, live, step).map_err(|e| retag(e, &format!("retry-after-failed-{what}")))?;
+    }
     Ok(())
 }
 
 pub fn exec_hist(t: &[&str]) -> String {
     let Ok(seed) = t[0].parse::<u64>() else { return "bad-op".into() };
     let steps: Vec<&str> = t[1].split(';').collect();
-    let cfg = ConfigOptions::default()
+    let mut cfg = ConfigOptions::default()
         .set_datapack_size(ByteSize(*Rng::new(seed).pick(&[3000u64, 6000, 20_000])))
         .set_treepack_size(ByteSize(*Rng::new(seed ^ 5).pick(&[1500u64, 4000])))
         .set_compression(if seed % 3 == 0 { 0 } else { 3 });
+    if let Some(c) = steps[0].strip_prefix('g') {
+        // fixed-size chunker with tiny chunks: many blobs per byte of source (pack sizes as they come out of the default sizer
+        // or moderately small, so that the number of packs stays reasonable)
+        let Ok(c) = c.parse::<u64>() else { return "bad-op".into() };
+        if c == 0 {
+            return "bad-op".into();
+        }
+        cfg = cfg
+            .set_chunker(Chunker::FixedSize)
+            .set_chunk_size(ByteSize(c))
+            .set_datapack_size(ByteSize(*Rng::new(seed).pick(&[20_000u64, 60_000, 200_000])))
+            .set_treepack_size(ByteSize(*Rng::new(seed ^ 5).pick(&[4000u64, 100_000])));
+    }
     let Ok((h, _)) = RepoHandle::init(MemBackend::new(), None, &cfg) else { return "oracle-fail:init".into() };
+    // serving order of index files during prune planning (step `o`)
+    let mut order = 0u8;
     let mut live: Vec<Live> = vec![];
     let mut forgotten: Vec<(Live, Bytes)> = vec![];
     let mut stale: Option<repo::Store> = None;
@@ -385,7 +559,71 @@ pub fn exec_hist(t: &[&str]) -> String {
             }
             "p" => {
                 pending = false;
-                prune_step(&h, arg, si, &mut marked_at)
+                prune_run(&h, arg, si, &mut marked_at, &Fault::None, order).map(|_| ())
+            }
+            "q" | "Q" => {
+                fault_sweep(&h, arg, si, &marked_at, &live, pending, seed, order, c == "Q")?;
+                pending = false;
+                prune_run(&h, arg, si, &mut marked_at, &Fault::None, order).map(|_| ())
+            }
+            "z" => {
+                let Some((spec, i)) = arg.rsplit_once('/') else { return Err("bad-op".into()) };
+                let i: usize = i.parse().map_err(|_| "bad-op".to_string())?;
+                if live.is_empty() {
+                    return Err("bad-op".into());
+                }
+                // the index file(s) listing (unmarked) the root tree of live snapshot i
+                let root: Id = *live[i % live.len()].snap.tree;
+                let ids: Vec<Id> = all_index(&h)
+                    .map_err(|_| fail("index-undecodable", si))?
+                    .into_iter()
+                    .filter(|(_, f)| f.packs.iter().any(|p| p.blobs.iter().any(|b| b.tpe == BlobType::Tree && *b.id == root)))
+                    .map(|(id, _)| id)
+                    .collect();
+                let ran = prune_run(&h, spec, si, &mut marked_at, &Fault::RemoveIndex(ids.clone()), order)?;
+                if ran.failed.is_some() && !ran.ok {
+                    // The old index files are removed in parallel, in no particular order (`delete_list`); once one removal has
+                    // failed the others may or may not have been done.  The history continues from the state in which they all
+                    // were: exactly the index files whose removal failed survive next to the rebuilt index.
+                    for id in ran.rebuild.iter().filter(|id| !ids.contains(id)) {
+                        h.be.del_raw(FileType::Index, id);
+                    }
+                }
+                if std::env::var("VH_DEBUG").is_ok() {
+                    let mut sizes: Vec<usize> = h.be.ids(FileType::Index).iter().map(|id| h.be.get(FileType::Index, id).map_or(0, |b| b.len())).collect();
+                    sizes.sort_unstable();
+                    eprintln!("step {si}: interrupted prune ok={} failed={:?} n={}; index files now (bytes): {sizes:?}", ran.ok, ran.failed.as_ref().map(op_kind), ran.n);
+                }
+                if ran.ok && ran.failed.is_some() {
+                    return Err(fail("prune-ok-despite-failed-index-remove", si));
+                }
+                if ran.ok {
+                    pending = false;
+                }
+                Ok(())
+            }
+            "o" => {
+                order = match arg {
+                    "0" => 0,
+                    "1" => 1,
+                    "2" => 2,
+                    _ => return Err("bad-op".into()),
+                };
+                Ok(())
+            }
+            "g" => {
+                if si == 0 && arg.parse::<u64>().is_ok() { Ok(()) } else { Err("bad-op".into()) }
+            }
+            "l" => {
+                let Some((k, n)) = arg.split_once(',') else { return Err("bad-op".into()) };
+                let (Ok(k), Ok(n)) = (k.parse::<u64>(), n.parse::<u64>()) else { return Err("bad-op".into()) };
+                if n > 1_000_000 {
+                    return Err("bad-op".into());
+                }
+                let src = large_source(seed, k, n);
+                let snap = backup(&h, &src)?;
+                live.push(Live { snap, src });
+                Ok(())
             }
             _ => Err("bad-op".into()),
         })();
@@ -465,8 +703,15 @@ impl Gen {
         true
     }
     fn prune(&mut self, p: PruneSpec, stats: &mut Stats) {
+        self.prune_as("p", p, stats);
+    }
+    /// a prune step under the given step letter (`p` plain, `q`/`Q` with fault sweep, `z` interrupted — the caller appends `/<i>`)
+    fn prune_as(&mut self, letter: &str, p: PruneSpec, stats: &mut Stats) {
         let fl: String = p.flags.iter().map(|b| if *b { '1' } else { '0' }).collect();
-        self.steps.push(format!("p{},{},{fl},{},{},{}", p.kd, p.kp, p.mr, p.mu, self.dt));
+        self.steps.push(format!("{letter}{},{},{fl},{},{},{}", p.kd, p.kp, p.mr, p.mu, self.dt));
+        if letter != "p" {
+            stats.hit(format!("hist.prune.{letter}"));
+        }
         let instant = p.flags[4];
         let dt = self.dt;
         // a pack marked by the first prune after the forget / `s` (at dt0) is deleted by this prune when
@@ -588,7 +833,8 @@ fn marking_prune(rng: &mut Rng, kd: i64, tight: bool) -> PruneSpec {
 pub fn gen_hist(rng: &mut Rng, stats: &mut Stats, thorough: bool) -> String {
     let seed = rng.below(1_000_000);
     let mut g = Gen::new();
-    let shape = rng.below(10);
+    let shape = rng.below(12);
+    let sweep = if thorough { "Q" } else { "q" };
     match shape {
         // (a) keep-delete > 0, packs still marked, their blobs uploaded again (duplicates) into packs that become
         //     partly used and are repacked while the marked packs are still kept
@@ -694,9 +940,41 @@ pub fn gen_hist(rng: &mut Rng, stats: &mut Stats, thorough: bool) -> String {
                 g.prune(p, stats);
             }
         }
+        // (e) a REPACKING prune (partly used data packs, no unused space tolerated; mark-only and instant-delete) under write
+        //     faults: every storage operation of the run fails once — the repacked tree pack(s), the repacked data pack that is
+        //     only written by `finalize`, the index, the removals; prune must report it and lose nothing; a retry heals
+        8 | 9 => {
+            stats.hit("hist.shape.repack-under-write-faults");
+            let v = 1 + rng.below(4);
+            g.backup(v, stats);
+            if rng.chance(1, 3) {
+                let w = v + 1 + rng.below(2);
+                g.backup(w, stats);
+            }
+            // mostly the oldest snapshot goes: the packs of the first backup stay partly used
+            let i = if rng.chance(3, 4) { 0 } else { rng.below(3) as usize };
+            _ = g.forget(i, stats);
+            g.dt += *rng.pick(&[0i64, 0, 90_000]);
+            let kd = *rng.pick(&[0i64, 3600, 82_800]);
+            let mut p = marking_prune(rng, kd, true);
+            p.flags[4] = rng.chance(1, 2);
+            if p.flags[4] {
+                stats.hit("hist.fault-sweep.instant");
+            } else {
+                stats.hit("hist.fault-sweep.mark-only");
+            }
+            g.prune_as(sweep, p, stats);
+            if rng.chance(1, 2) {
+                // … and the prune that deletes what was marked (past keep-delete), again under faults
+                g.dt += kd + CLOCK_SLACK + *rng.pick(&[100i64, 3600]);
+                let mut p = rand_prune(rng, true);
+                p.kd = *rng.pick(&[0, kd]);
+                g.prune_as(sweep, p, stats);
+            }
+        }
         _ => stats.hit("hist.shape.random"),
     }
-    let len = if shape < 8 { rng.below(4) } else { 3 + rng.below(if thorough { 12 } else { 7 }) };
+    let len = if shape < 10 { rng.below(4) } else { 3 + rng.below(if thorough { 12 } else { 7 }) };
     for _ in 0..len {
         match rng.below(24) {
             0..=4 => {
@@ -763,12 +1041,76 @@ pub fn gen_hist(rng: &mut Rng, stats: &mut Stats, thorough: bool) -> String {
             _ => {
                 g.dt += *rng.pick(&[0i64, 0, 3600, 90_000]);
                 let p = rand_prune(rng, true);
-                g.prune(p, stats);
+                if rng.chance(1, 6) {
+                    g.prune_as("q", p, stats);
+                } else {
+                    g.prune(p, stats);
+                }
             }
         }
     }
     if g.half.is_some() && rng.chance(1, 2) {
         _ = g.finish_half(stats);
+        let p = rand_prune(rng, true);
+        g.prune(p, stats);
+    }
+    format!("c02 hist {seed} {}", g.steps.join(";"))
+}
+
+/// A history with BIG index files (>= `MIN_INDEX_LEN` blobs: prune rebuilds such a file only when it has to): fixed-size chunker
+/// with 8-byte chunks, two backups with a large file each (each index file below the threshold, together above it) and a small
+/// one; a prune that merges the three index files is interrupted while it removes the old ones, so the index file of one
+/// snapshot survives next to the merged one (duplicate index entries); then a snapshot is forgotten and an (often instant)
+/// prune runs with the index files arriving smallest / largest first; then the forgotten version is backed up again.
+/// `directed`: the surviving index file is the small snapshot's, that snapshot is forgotten, the small index file arrives
+/// first and the prune deletes instantly — the merged index file then needs no change except dropping the duplicate entries.
+pub fn gen_hist_big(rng: &mut Rng, stats: &mut Stats, directed: bool) -> String {
+    let seed = rng.below(1_000_000);
+    let min = hook::MIN_INDEX_LEN as u64;
+    let n = min / 2 + min / 10 + rng.below(min / 20 + 1);
+    let mut g = Gen::new();
+    g.steps = vec!["g8".into(), format!("l0,{n}"), format!("l1,{n}")];
+    g.live = vec![0, 1];
+    g.maxv = 1;
+    g.backup(2, stats);
+    stats.hit("hist.shape.big-index-interrupted-merge");
+    // the merging prune: nothing to remove, every index file is small => all are rebuilt into one
+    let mut p = rand_prune(rng, false);
+    p.kd = *rng.pick(&[3600i64, 82_800]);
+    p.kp = 0;
+    p.flags = [false, false, false, rng.chance(1, 2), false, false, rng.chance(1, 2)];
+    p.mr = "u";
+    p.mu = *rng.pick(&["u", "p5"]);
+    let i = if directed { 2 } else { rng.below(3) as usize };
+    g.prune_as("z", p, stats);
+    let last = g.steps.pop().unwrap();
+    g.steps.push(format!("{last}/{i}"));
+    let j = if directed || rng.chance(3, 4) { i } else { rng.below(3) as usize };
+    let v = g.live[j];
+    _ = g.forget(j, stats);
+    let m = if directed { 1 } else { rng.below(3) };
+    g.steps.push(format!("o{m}"));
+    stats.hit(format!("hist.index-order.{m}"));
+    g.dt += *rng.pick(&[0i64, 0, 90_000]);
+    let mut p = rand_prune(rng, true);
+    p.flags[4] = directed || rng.chance(3, 4);
+    if directed {
+        // nothing else to do for the merged index file: no repacking; the unused packs are not protected by keep-pack
+        p.kp = 0;
+        p.flags[0] = false;
+        p.flags[1] = false;
+        p.flags[2] = false;
+        p.mu = "u";
+    }
+    g.prune(p, stats);
+    // the forgotten version again: de-duplicates against whatever the index still lists
+    if v < 2 {
+        g.steps.push(format!("l{v},{n}"));
+        g.live.push(v);
+    } else {
+        g.backup(v, stats);
+    }
+    if rng.chance(1, 2) {
         let p = rand_prune(rng, true);
         g.prune(p, stats);
     }
